@@ -63,6 +63,11 @@ pub enum StdoutKind {
     /// The consumer reads exactly k bytes, then closes its end.
     CloseAfter(usize),
     DevFull,
+    /// A regular file on which the process may not grow past this many bytes
+    /// (RLIMIT_FSIZE with SIGXFSZ ignored, as under `trap '' XFSZ; ulimit -f`):
+    /// write(2) beyond the limit fails with EFBIG, like a full or over-quota
+    /// file system would fail it with ENOSPC/EDQUOT.
+    FileLimited(u64),
 }
 
 #[derive(Clone, Debug)]
@@ -240,7 +245,14 @@ static EXCLUSIVE: std::sync::RwLock<()> = std::sync::RwLock::new(());
 
 pub fn run(r: Run) -> ProcOut {
     let _g = EXCLUSIVE.read().unwrap_or_else(|e| e.into_inner());
-    run_inner(r)
+    run_inner(r, None)
+}
+
+/// Like `run`, with the program name (argv[0]) the process sees chosen by the
+/// caller; U+FFFD is materialised as the byte 0xE9 as in `os_name`.
+pub fn run_as(r: Run, arg0: &str) -> ProcOut {
+    let _g = EXCLUSIVE.read().unwrap_or_else(|e| e.into_inner());
+    run_inner(r, Some(arg0))
 }
 
 /// Runs one process while no other process of this harness is being spawned or
@@ -255,14 +267,14 @@ pub fn run_exclusive(r: Run) -> ProcOut {
     let _g = EXCLUSIVE.write().unwrap_or_else(|e| e.into_inner());
     // let children that were just spawned finish their exec
     std::thread::sleep(Duration::from_millis(100));
-    run_inner(r)
+    run_inner(r, None)
 }
 
-fn run_inner(r: Run) -> ProcOut {
+fn run_inner(r: Run, arg0: Option<&str>) -> ProcOut {
     let mut cmd = Command::new(r.bin);
     cmd.args(r.argv.iter().map(|a| os_name(a))).current_dir(r.cwd).stderr(Stdio::piped());
     // keep argv[0] stable so that usage text is comparable
-    cmd.arg0("xt");
+    cmd.arg0(os_name(arg0.unwrap_or("xt")));
     cmd.env_clear();
     match &r.stdin {
         StdinKind::Null => {
@@ -296,6 +308,29 @@ fn run_inner(r: Run) -> ProcOut {
                 Ok(f) => {
                     cmd.stdout(Stdio::from(f));
                     out_file = Some(p);
+                }
+                Err(e) => return ProcOut { status: Status::SpawnError(e.to_string()), stdout: vec![], stderr: vec![] },
+            }
+        }
+        StdoutKind::FileLimited(limit) => {
+            use std::os::unix::process::CommandExt as _;
+            let p = r.cwd.join(format!(".stdout-{}", SCRATCH_N.fetch_add(1, Ordering::Relaxed)));
+            match File::create(&p) {
+                Ok(f) => {
+                    cmd.stdout(Stdio::from(f));
+                    out_file = Some(p);
+                    let limit = *limit;
+                    // SAFETY: only async-signal-safe calls between fork and exec
+                    unsafe {
+                        cmd.pre_exec(move || {
+                            libc::signal(libc::SIGXFSZ, libc::SIG_IGN);
+                            let lim = libc::rlimit { rlim_cur: limit, rlim_max: limit };
+                            if libc::setrlimit(libc::RLIMIT_FSIZE, &lim) != 0 {
+                                return Err(std::io::Error::last_os_error());
+                            }
+                            Ok(())
+                        });
+                    }
                 }
                 Err(e) => return ProcOut { status: Status::SpawnError(e.to_string()), stdout: vec![], stderr: vec![] },
             }
